@@ -197,6 +197,8 @@ class StackSim:
             p.announcer.queue_send(conv.d_entry(c[1]), remote=None if not c[2] else addr_of(c[2][0]))
         elif code == 20:
             p.send_sd([conv.d_entry(e) for e in c[1]], remote=None if not c[2] else addr_of(c[2][0]))
+        elif code == 21:
+            self.insts[c[1]].listener.reject = set(c[2])
         else:
             raise ValueError(code)
 
